@@ -10,6 +10,8 @@ type StackN<const N: usize, const S: usize> = any_vec::mem::StackN<N, S>;
 
 #[cfg(feature = "lib_alloc")]
 anyvec_pbt::configs! {
+    Tr64_GuardA:   Tr64,   GuardB,          dyn Cloneable, G_ALIGN;
+    Tr160_StackA:  Tr160,  Stack<320>,      dyn Cloneable, G_ALIGN;
     Tr1_Multi:    Tr1,    Multi, dyn Cloneable, G_LAYOUT | G_FAULT;
     Tr24_Multi:   Tr24,   Multi, dyn Cloneable, G_LAYOUT | G_CORE | G_FAULT;
     Pl8_Multi:    Pl8,    Multi, dyn Cloneable, G_LAYOUT | G_FAULT;
@@ -22,6 +24,8 @@ anyvec_pbt::configs! {
 
 #[cfg(not(feature = "lib_alloc"))]
 anyvec_pbt::configs! {
+    Tr64_GuardA:   Tr64,   GuardB,          dyn Cloneable, G_ALIGN;
+    Tr160_StackA:  Tr160,  Stack<320>,      dyn Cloneable, G_ALIGN;
     Pl3_Stack:    Pl3,    Stack<17>,      dyn Cloneable, G_BACKEND | G_STACK;
     Tr0_StackN:   Tr0,    StackN<4, 0>,   dyn Cloneable, G_BACKEND | G_STACK;
 }
